@@ -297,8 +297,15 @@ class TreeGen:
             w = None
             if rng.random() < 0.5:
                 w = fs2b(rng.integers(0, 5, size=int(sum(np.prod(s) for s in shape))).astype(np.float64) / 2)
-            self.tags.append("sql2:ident:block")
-            return {"k": "sql2", "y": self.measurement(shape), "A": {"k": "ident"}, "w": w, "scale": f2b(pos_dyadic(rng))}
+            if rng.random() < 0.5:
+                # a Diagonal whose diagonal is a block array of the block shape (flat list, block by block)
+                tot = [dy(rng, s_, self.cplx, bits=1, scale=2.0) for s_ in shape]
+                Aj = {"k": "diag", "d": fs2b(np.concatenate([il(b_, self.cplx) for b_ in tot]))}
+                self.tags.append("sql2:diag:block")
+            else:
+                Aj = {"k": "ident"}
+                self.tags.append("sql2:ident:block")
+            return {"k": "sql2", "y": self.measurement(shape), "A": Aj, "w": w, "scale": f2b(pos_dyadic(rng))}
         n = int(np.prod(shape))
         w = None
         if rng.random() < 0.5:
@@ -484,6 +491,13 @@ def build(scico, case, t=None, shape=None, info=None):
         Ak = t["A"]["k"]
         if Ak == "ident":
             A = None
+        elif Ak == "diag" and isinstance(shape, list):
+            df, pos_, db = unil(b2fs(t["A"]["d"]), cplx), 0, []
+            for sh in shape:
+                m_ = int(np.prod(sh))
+                db.append(snp.array(df[pos_ : pos_ + m_].reshape(sh)))
+                pos_ += m_
+            A = linop.Diagonal(snp.blockarray(db), input_dtype=np.complex128 if cplx else np.float64)
         elif Ak == "diag":
             A = linop.Diagonal(snp.array(unil(b2fs(t["A"]["d"]), cplx, shape)), input_dtype=np.complex128 if cplx else np.float64)
         else:
@@ -581,11 +595,13 @@ def np_eval(case, blocks, t=None, shape=None):
         ys = _json_blocks(t["y"], shape, cplx)
         wf = None if t.get("w") is None else np.asarray(b2fs(t["w"]))
         tot, pos = 0.0, 0
+        df = unil(b2fs(t["A"]["d"]), cplx) if t["A"]["k"] == "diag" else None
         for yb, xb in zip(ys, blocks):
             m_ = int(np.prod(yb.shape))
             wv = 1.0 if wf is None else wf[pos : pos + m_].reshape(yb.shape)
+            ab = 1.0 if df is None else df[pos : pos + m_].reshape(yb.shape)
             pos += m_
-            tot += float(np.sum(wv * np.abs(yb - xb) ** 2))
+            tot += float(np.sum(wv * np.abs(yb - ab * xb) ** 2))
         return float(b2f(t["scale"]) * tot)
     if k == "sql2":
         y = _json_blocks(t["y"], shape, cplx)[0]
